@@ -17,6 +17,7 @@ const RES: u64 = 60; // lcm(1..5): a key's residue mod 60 fixes its residue mod 
 struct NodeOp {
     ids: Vec<u64>,
     valid: Vec<u64>,
+    flap: Vec<u64>,
     local: u64,
 }
 
@@ -28,16 +29,19 @@ fn parse_node(ws: &[&str]) -> Option<NodeOp> {
     let mut ids = vec![];
     let mut valid = vec![];
     let mut local = 0;
+    let mut flap = vec![];
     for w in ws {
         if let Some(v) = w.strip_prefix("ids=") {
             ids = parse_list(v);
         } else if let Some(v) = w.strip_prefix("valid=") {
             valid = parse_list(v);
+        } else if let Some(v) = w.strip_prefix("flap=") {
+            flap = parse_list(v);
         } else if let Some(v) = w.strip_prefix("local=") {
             local = v.parse().ok()?;
         }
     }
-    Some(NodeOp { ids, valid, local })
+    Some(NodeOp { ids, valid, flap, local })
 }
 
 fn addr_of(id: u64) -> Arc<String> {
@@ -95,6 +99,20 @@ pub fn run() {
                 }
             }
             tokio::time::sleep(Duration::from_millis(3000)).await;
+        }
+        // phase 2: nodes that "flap" were starved above (now Invalid) and report in again; after the next
+        // status ticks they must count as live again and the owner range must follow
+        if slots.iter().flatten().any(|s| !s.0.flap.is_empty()) {
+            for _ in 0..3 {
+                for s in slots.iter().flatten() {
+                    for id in s.0.valid.iter().chain(s.0.flap.iter()) {
+                        if *id != s.0.local {
+                            s.1.do_send(NodeManageRequest::ActiveNode(*id));
+                        }
+                    }
+                }
+                tokio::time::sleep(Duration::from_millis(3000)).await;
+            }
         }
         let mut out = vec![];
         for (l, s) in lines.iter().zip(slots.iter()) {
